@@ -140,9 +140,9 @@ macro "steps" : tactic =>
   `(tactic| repeat' (first
       | assumption
       | exact Steps.nil
-      | refine Steps.nb (by cls_nb) ?_
-      | refine Steps.cl rfl ?_
-      | refine Steps.op rfl (by first | assumption | (apply tooDeep_of_le; omega)) ?_
+      | (apply Steps.nb; cls_nb)
+      | (apply Steps.cl; rfl)
+      | (apply Steps.op; rfl; (first | assumption | (apply tooDeep_of_le; omega)))
       | apply Steps.append))
 
 /-! ### the postcondition calculus -/
